@@ -32,7 +32,14 @@ META = {
     "int indexing, tuple slicing, copyto of equal-length slices) validated against numpy each run; numpy "
     "casting / dtype promotion not modelled; int32 offsets: theorems assume sum(chunks) < 2^31 (wrap is modelled "
     "and compared); "
-    "squeezing of int-indexed extra axes in BlockAssembler and _verify_shape are not modelled.",
+    "modelled since the growth round: BlockAssembler._norm_roi (padding of short windows, which axes an int squeezes, "
+    "IndexError) and extract for any window spelling (extractND); clip_tiles as a function of the selected SET; zero-size "
+    "members; planes_yx one-to-one.  NOT mirrored in Lean (oracle / correspondence only, or out of scope): "
+    "BlockAssembler._verify_shape and _find_common_type (dtype promotion, numpy), casting / default fill by dtype, "
+    "planes_yx(yx_roi) variant; norm_slice_2d's Index2d / XY branch (iyx_) and numpy-int indices; roi_tiles dispatch, "
+    "WindowFromSlice; GeoBox.compute_crop branches other than a pair of slices / ints (Geometry, BoundingBox, GeoBox, "
+    "step != 1 -> NotImplementedError: C02); __eq__ / __str__ / __dask_tokenize__ of Tiles, VariableSizedTiles, "
+    "GeoboxTiles (C19); negative tile sizes.",
     "technique": "Lean 4 proof over hand model + exhaustive/random differential correspondence with real code",
     "design_ref": "DESIGN.md §4 C04",
 }
@@ -1421,6 +1428,22 @@ def empty_members_stream(R: Run, Rm, GeoBox, GeoboxTiles):
 
 
 # ------------------------------------------------------------------ every spelling of a window, every block rank
+def normroi_errors(R: Run, BlockAssembler):
+    """`_norm_roi` on tuples of every length (shorter than the rank, 2, rank, longer -> IndexError) and ints out of range"""
+    rng = R.rng
+    for lead, trail in (([], []), ([2], []), ([], [3]), ([1], [2]), ([2, 3], [1])):
+        a = len(lead)
+        blocks = {(0, 0): np.zeros((*lead, 3, 4, *trail), dtype="uint8")}
+        asm = BlockAssembler(blocks, ((3,), (4,)), axis=a)
+        shape = (*lead, 3, 4, *trail)
+        for _k in range(R.pick(40, 200)):
+            L = rng.randint(0, len(shape) + 2)
+            roi = tuple(rng.choice([rng.randint(-5, 5), slice(rng.choice([None, 0, 1, -1]), rng.choice([None, 1, 3, -1, 6]))]) for _ in range(L))
+            rtok = "t=" + list_s([enc(v) for v in roi])
+            R.corr(f"c04 normroi {ints(shape)} {a} {rtok}",
+                   lambda: (lambda ws, sq: f"{list_s([ns(w) for w in ws])} {ints(sq)}")(*asm._norm_roi(roi)), sig=f"normroi|len{L}")
+
+
 def window_spellings(R: Run, BlockAssembler):
     """extract(roi=w) / assembler[w] for each of Y and X given as int, negative int, slice, open slice; the window as
     2-tuple, full-rank tuple (extra axes as slices or ints), planes_yx()-style roi, 1-tuple, bare index or None; blocks
@@ -1439,7 +1462,7 @@ def window_spellings(R: Run, BlockAssembler):
         if NY == 0 or NX == 0:
             continue
         keys = [(iy, ix) for iy in range(ty) for ix in range(tx) if rng.random() < 0.7] or [(0, 0)]
-        blocks = {k: (cell_vals(100, k, lead, chy[k[0]], chx[k[1]], trail) + 1).astype("int16") for k in keys}
+        blocks = {k: cell_vals(100, k, lead, chy[k[0]], chx[k[1]], trail).astype("int16") for k in keys}
         oy = np.concatenate([[0], np.cumsum(chy)]).astype(int)
         ox = np.concatenate([[0], np.cumsum(chx)]).astype(int)
         FILL = -5
@@ -1498,6 +1521,12 @@ def window_spellings(R: Run, BlockAssembler):
             want = mosaic[tuple(ref)]
             case = {"chy": chy, "chx": chx, "keys": keys, "lead": lead, "trail": trail, "form": form,
                     "roi": "None" if roi is None else [enc(v) for v in (roi if isinstance(roi, tuple) else (roi,))]}
+            # model correspondence: `_norm_roi` itself, and extract for this spelling (default fill so that fill == N)
+            rtok = "N" if roi is None else ("t=" + list_s([enc(v) for v in roi]) if isinstance(roi, tuple) else "1=" + enc(roi))
+            R.corr(f"c04 normroi {ints(shape)} {a} {rtok}",
+                   lambda: (lambda ws, sq: f"{list_s([ns(w) for w in ws])} {ints(sq)}")(*asm._norm_roi(roi)), sig=f"normroi|{form}")
+            R.corr(f"c04 asmnd {ints(chy)} {ints(chx)} {list_s([f'{k[0]};{k[1]}' for k in keys])} {ints(lead)} {ints(trail)} {rtok} 100",
+                   lambda: (lambda xx: f"{ints(xx.shape)} {canon_cells(xx)}")(asm.extract(roi=roi)), sig=f"asmnd|{form}")
             for how, fn in (("extract", lambda: asm.extract(FILL, roi=roi)), ("[]", lambda: asm[roi] if roi is not None else asm.extract())):
                 if how == "[]" and rng.random() < 0.5:
                     continue
@@ -1657,6 +1686,7 @@ def run(R: Run):
     stream(empty_members_stream, R, Rm, GeoBox, GeoboxTiles)
     stream(assembler, R, BlockAssembler)
     stream(window_spellings, R, BlockAssembler)
+    stream(normroi_errors, R, BlockAssembler)
     stream(assembler_held, R, BlockAssembler)
     stream(assembler_dtypes, R, BlockAssembler)
     stream(assembler_lazy_and_threads, R, BlockAssembler)
